@@ -8,7 +8,7 @@ open Fca Fca.Poset.Fresh
 
 section
 variable {α : Type} [DecidableEq α] {leq : α → α → Bool} {ord : List Nat → List Nat}
-variable {E : List α} {m : Nat} {c : Bool}
+variable {E : List α} {G : Ghost} {c : Bool}
 
 theorem indexOf?_some_of_mem {e : α} {l : List α} (h : e ∈ l) : ∃ i, indexOf? e l = some i := by
   induction l with
@@ -70,12 +70,12 @@ theorem setEq_congr {a a' b : List Nat} (h : ∀ x, x ∈ a ↔ x ∈ a') : setE
   · rintro ⟨h1, h2⟩; exact ⟨fun x hx => h1 x ((h x).mpr hx), fun x hx => (h x).mp (h2 x hx)⟩
   · rintro ⟨h1, h2⟩; exact ⟨fun x hx => h1 x ((h x).mp hx), fun x hx => (h x).mpr (h2 x hx)⟩
 
-variable (hpo : IdxPO leq E) (hm : E.length ≤ m)
-include hpo hm
+variable (hpo : IdxPO leq E)
+include hpo
 
 theorem eqLoop_spec (O : List α) (hEO : ∀ x ∈ E, x ∈ O) (l : List Nat) (hl : ∀ i ∈ l, i < E.length)
-    {s : St α} (h : InvB leq E m c s) :
-    Sat (eqLoop leq O l) s (fun s' r => InvB leq E m c s' ∧
+    {s : St α} (h : InvB leq E G c s) :
+    Sat (eqLoop leq O l) s (fun s' r => InvB leq E G c s' ∧
       r = l.all (eqAt leq E O)) := by
   induction l generalizing s with
   | nil => exact sat_pure ⟨h, rfl⟩
@@ -85,7 +85,7 @@ theorem eqLoop_spec (O : List α) (hEO : ∀ x ∈ E, x ∈ O) (l : List Nat) (h
     apply sat_bind
     apply sat_get
     apply sat_bind
-    apply sat_mono (closedE_spec hpo hm h .desc hi)
+    apply sat_mono (closedE_spec hpo h .desc hi)
     rintro s1 mine ⟨h1, hmine⟩
     rw [h.elems]
     obtain ⟨oi, hoi⟩ := indexOf?_some_of_mem (hEO _ (List.getElem_mem hi))
@@ -101,8 +101,8 @@ theorem eqLoop_spec (O : List α) (hEO : ∀ x ∈ E, x ∈ O) (l : List Nat) (h
       simp only [Bool.not_eq_true] at hh
       rw [hh, Bool.false_and]
 
-theorem eqE_spec (O : List α) {s : St α} (h : InvB leq E m c s) :
-    Sat (eqE leq O) s (fun s' r => InvB leq E m c s' ∧ r = eqOther leq E O) := by
+theorem eqE_spec (O : List α) {s : St α} (h : InvB leq E G c s) :
+    Sat (eqE leq O) s (fun s' r => InvB leq E G c s' ∧ r = eqOther leq E O) := by
   unfold eqE
   apply sat_bind
   apply sat_get
@@ -114,7 +114,7 @@ theorem eqE_spec (O : List α) {s : St α} (h : InvB leq E m c s) :
     have hEO : ∀ x ∈ E, x ∈ O := by
       simp only [Bool.and_eq_true, List.all_eq_true, decide_eq_true_eq] at hh
       exact hh.1
-    exact eqLoop_spec hpo hm O hEO _ (fun i hi => List.mem_range.mp hi) h
+    exact eqLoop_spec hpo O hEO _ (fun i hi => List.mem_range.mp hi) h
   · rename_i hh
     simp only [Bool.not_eq_true] at hh
     rw [hh, Bool.false_and]
@@ -122,81 +122,81 @@ theorem eqE_spec (O : List α) {s : St α} (h : InvB leq E m c s) :
 
 /-! ### fill_up_* -/
 
-theorem fillLeq_spec {s : St α} (h : InvB leq E m c s) :
-    Sat (fillLeq leq) s (fun s' _ => InvB leq E m c s') := by
+theorem fillLeq_spec {s : St α} (h : InvB leq E G c s) :
+    Sat (fillLeq leq) s (fun s' _ => InvB leq E G c s') := by
   unfold fillLeq
   apply sat_bind
   apply sat_get
   rw [h.elems]
-  apply sat_forM (InvB leq E m c) _ _ ?_ s h
+  apply sat_forM (InvB leq E G c) _ _ ?_ s h
   intro i hi s1 h1
-  apply sat_forM (InvB leq E m c) _ _ ?_ s1 h1
+  apply sat_forM (InvB leq E G c) _ _ ?_ s1 h1
   intro j hj s2 h2
   apply sat_bind
   apply sat_get
   split
   · exact sat_pure h2
   · apply sat_bind
-    apply sat_mono (leqE_spec hpo hm h2 (List.mem_range.mp hi) (List.mem_range.mp hj))
+    apply sat_mono (leqE_spec hpo h2 (List.mem_range.mp hi) (List.mem_range.mp hj))
     rintro s3 r ⟨h3, _⟩
     exact sat_pure h3
 
-theorem fillClosed_spec (d : Dir) {s : St α} (h : InvB leq E m c s) :
-    Sat (fillClosed leq d) s (fun s' _ => InvB leq E m c s') := by
+theorem fillClosed_spec (d : Dir) {s : St α} (h : InvB leq E G c s) :
+    Sat (fillClosed leq d) s (fun s' _ => InvB leq E G c s') := by
   unfold fillClosed
   apply sat_bind
   apply sat_get
   rw [h.elems]
-  apply sat_forM (InvB leq E m c) _ _ ?_ s h
+  apply sat_forM (InvB leq E G c) _ _ ?_ s h
   intro i hi s1 h1
   apply sat_bind
-  apply sat_mono (closedE_spec hpo hm h1 d (List.mem_range.mp hi))
+  apply sat_mono (closedE_spec hpo h1 d (List.mem_range.mp hi))
   rintro s3 r ⟨h3, _⟩
   exact sat_pure h3
 
 variable (hord : ∀ l, (ord l).Perm l)
 include hord
 
-theorem fillDirect_spec (d : Dir) {s : St α} (h : InvB leq E m c s) :
-    Sat (fillDirect leq ord d) s (fun s' _ => InvB leq E m c s') := by
+theorem fillDirect_spec (d : Dir) {s : St α} (h : InvB leq E G c s) :
+    Sat (fillDirect leq ord d) s (fun s' _ => InvB leq E G c s') := by
   unfold fillDirect
   apply sat_bind
   apply sat_get
   rw [h.elems]
-  apply sat_forM (InvB leq E m c) _ _ ?_ s h
+  apply sat_forM (InvB leq E G c) _ _ ?_ s h
   intro i hi s1 h1
   apply sat_bind
-  apply sat_mono (directE_spec hpo hm hord h1 d (List.mem_range.mp hi))
+  apply sat_mono (directE_spec hpo hord h1 d (List.mem_range.mp hi))
   rintro s3 r ⟨h3, _⟩
   exact sat_pure h3
 
-theorem fillE_spec (k : FillKind) {s : St α} (h : InvB leq E m true s) :
-    Sat (fillE leq ord k) s (fun s' _ => InvB leq E m true s') := by
+theorem fillE_spec (k : FillKind) {s : St α} (h : InvB leq E G true s) :
+    Sat (fillE leq ord k) s (fun s' _ => InvB leq E G true s') := by
   unfold fillE
   apply sat_bind
   apply sat_get
   rw [h.flag]
   simp only [↓reduceIte]
   cases k
-  · exact fillLeq_spec hpo hm h
-  · exact fillClosed_spec hpo hm .desc h
-  · exact fillClosed_spec hpo hm .anc h
-  · exact fillDirect_spec hpo hm hord .desc h
-  · exact fillDirect_spec hpo hm hord .anc h
+  · exact fillLeq_spec hpo h
+  · exact fillClosed_spec hpo .desc h
+  · exact fillClosed_spec hpo .anc h
+  · exact fillDirect_spec hpo hord .desc h
+  · exact fillDirect_spec hpo hord .anc h
   · simp only
     apply sat_bind
-    apply sat_mono (fillLeq_spec hpo hm h)
+    apply sat_mono (fillLeq_spec hpo h)
     intro s1 _ h1
     apply sat_bind
-    apply sat_mono (fillClosed_spec hpo hm .desc h1)
+    apply sat_mono (fillClosed_spec hpo .desc h1)
     intro s2 _ h2
     apply sat_bind
-    apply sat_mono (fillClosed_spec hpo hm .anc h2)
+    apply sat_mono (fillClosed_spec hpo .anc h2)
     intro s3 _ h3
     apply sat_bind
-    apply sat_mono (fillDirect_spec hpo hm hord .desc h3)
+    apply sat_mono (fillDirect_spec hpo hord .desc h3)
     intro s4 _ h4
-    exact fillDirect_spec hpo hm hord .anc h4
+    exact fillDirect_spec hpo hord .anc h4
 
 end
 end Fca.Poset
